@@ -70,3 +70,75 @@ def finite_reduce_power(cx):
     for ax in (z3.Implies(p.t == 0, POW(x.t, p.t) == 1), z3.Implies(x.t == 1, POW(x.t, p.t) == 1), z3.Implies(z3.And(x.t == 0, p.t > 0), POW(x.t, p.t) == 0),
                z3.Implies(p.t == 1, POW(x.t, p.t) == x.t)):
         cx.axiom(ax)
+
+
+BIN = z3.Function('binomial', I, I, R)
+
+
+def moments_map(cx):
+    N = cx.int('N')
+    m = cx.map('moments', DI, DR, size=N.t)
+    arr, dom = m.t
+    q = z3.Int('q')
+    cx.requires(N.t >= 1, z3.ForAll([q], z3.Select(dom, q) == z3.And(1 <= q, q <= N.t)))
+    return N, m, arr
+
+
+@contract('utils/statistics.py', 'raw_moments_to_centrals', ['C11'])
+def raw_to_centrals(cx):
+    """c_1 = 0 and for 2 <= i <= N:  c_i = sum_{j=0..i} C(i,j) (-1)^(i-j) m_j m_1^(i-j)   (binomial expansion of E[(X - m_1)^i], m_0 = 1)"""
+    N, m, arr = moments_map(cx)
+    cx.param(moments=m)
+    cx.call('comb', lambda ex, st, r, a, kw: VR(BIN(toint(a[0]), toint(a[1]))), trusted='comb(i, j) = binomial coefficient (contract above)')
+    m1 = z3.Select(arr, 1)
+    mj = lambda j: z3.If(j > 0, z3.Select(arr, j), z3.RealVal(1))
+    CS = z3.RecFunction('central_sum', I, I, R); i_, j_ = z3.Int('i_'), z3.Int('j_')
+    z3.RecAddDefinition(CS, [i_, j_], z3.If(j_ <= 0, z3.RealVal(0), CS(i_, j_ - 1) + BIN(i_, j_ - 1) * POW(z3.RealVal(-1), i_ - (j_ - 1)) * mj(j_ - 1) * POW(m1, i_ - (j_ - 1))))
+    q = z3.Int('q')
+    empty = V('map', (z3.K(I, z3.RealVal(0)), z3.K(I, z3.BoolVal(False))), kk=DI, vk=DR, size=z3.IntVal(0))
+
+    def outer(st):
+        i = 2 + st['$i0'].t; c = st['centrals']; carr, cdom = c.t
+        return z3.And(z3.Select(cdom, 1), z3.Select(carr, 1) == 0,
+                      z3.ForAll([q], z3.Implies(z3.And(2 <= q, q < i), z3.And(z3.Select(cdom, q), z3.Select(carr, q) == CS(q, q + 1)))))
+    cx.invariant(0, outer)
+
+    def inner(st):
+        i = st['i'].t
+        c = st['centrals']; carr, cdom = c.t
+        return z3.And(toreal(st['c_i']) == CS(i, st['$i1'].t), z3.Select(cdom, 1), z3.Select(carr, 1) == 0,
+                      z3.ForAll([q], z3.Implies(z3.And(2 <= q, q < i), z3.And(z3.Select(cdom, q), z3.Select(carr, q) == CS(q, q + 1)))))
+    cx.invariant(1, inner)
+
+    def post(st, r):
+        rarr, rdom = r.t
+        return z3.And(z3.Select(rarr, 1) == 0, z3.ForAll([q], z3.Implies(z3.And(2 <= q, q <= N.t), z3.And(z3.Select(rdom, q), z3.Select(rarr, q) == CS(q, q + 1)))))
+    cx.ensures(post)
+    cx.lemmas.append(('L-moments: the binomial sum equals E[(X - E X)^i] (binomial theorem + linearity; decided per order by the C11 symbolic-run)', None))
+
+
+@contract('utils/statistics.py', 'raw_moments_to_cumulants', ['C11'])
+def raw_to_cumulants(cx):
+    """kappa_i = m_i - sum_{k=1..i-1} C(i-1,k-1) kappa_k m_{i-k}   (the standard moment/cumulant recursion), for 1 <= i <= N"""
+    N, m, arr = moments_map(cx)
+    cx.param(moments=m)
+    cx.call('comb', lambda ex, st, r, a, kw: VR(BIN(toint(a[0]), toint(a[1]))), trusted='comb(i, j) = binomial coefficient (contract above)')
+    KAP = z3.RecFunction('kappa', I, R); KS = z3.RecFunction('kappa_sum', I, I, R); i_, g_ = z3.Int('i_'), z3.Int('g_')
+    # KS(i, g) = sum_{k=1..g} C(i-1,k-1) kappa_k m_{i-k}
+    z3.RecAddDefinition(KS, [i_, g_], z3.If(g_ <= 0, z3.RealVal(0), KS(i_, g_ - 1) + BIN(i_ - 1, g_ - 1) * KAP(g_) * z3.Select(arr, i_ - g_)))
+    z3.RecAddDefinition(KAP, [i_], z3.Select(arr, i_) - KS(i_, i_ - 1))
+    q = z3.Int('q')
+    cx.set_hook('empty_kinds', {'cumulants': V('map', (z3.K(I, z3.RealVal(0)), z3.K(I, z3.BoolVal(False))), kk=DI, vk=DR, size=z3.IntVal(0))})
+
+    def known(st, i):
+        carr, cdom = st['cumulants'].t
+        return z3.ForAll([q], z3.Implies(z3.And(1 <= q, q < i), z3.And(z3.Select(cdom, q), z3.Select(carr, q) == KAP(q))))
+    cx.invariant(0, lambda st: known(st, 1 + st['$i0'].t))
+    cx.invariant(1, lambda st: z3.And(known(st, st['i'].t), 1 <= st['i'].t, st['i'].t <= N.t,
+                                      toreal(st['c_i']) == z3.Select(arr, st['i'].t) - KS(st['i'].t, st['$i1'].t)))
+
+    def post(st, r):
+        rarr, rdom = r.t
+        return z3.ForAll([q], z3.Implies(z3.And(1 <= q, q <= N.t), z3.And(z3.Select(rdom, q), z3.Select(rarr, q) == KAP(q))))
+    cx.ensures(post)
+    cx.lemmas.append(('L-cumulants: the recursion defines the cumulants k! [t^k] log E[e^{tX}] (decided per order by the C11 symbolic-run)', None))
